@@ -8,13 +8,13 @@ sid="$1"; shift
 patch=/verif/seeded/$sid/patch.diff; [ -f "$patch" ] || patch=/tmp/mut_${sid}_out/patch.diff
 if [ $inrepo = 1 ]; then
   git -C /repo apply "$patch" || exit 2
-  for c in "$@"; do /verif/check $c --tier quick 2>&1 | tail -3; done
+  for c in "$@"; do /verif/check $c --tier quick 2>&1 | grep -v "^KNOWN-FINDING" | tail -3; done
   git -C /repo checkout -- .
 else
   d=/tmp/seedtree_$sid; rm -rf $d; mkdir -p $d; git -C /repo archive HEAD | tar -x -C $d
   for f in config.h; do [ -f /repo/$f ] && cp /repo/$f $d/; done
   (cd $d && git init -q . 2>/dev/null; git apply "$patch") || { echo "patch does not apply"; exit 2; }
-  for c in "$@"; do LHASA_REPO=$d /verif/check $c --tier quick 2>&1 | tail -3; done
+  for c in "$@"; do LHASA_REPO=$d /verif/check $c --tier quick 2>&1 | grep -v "^KNOWN-FINDING" | tail -3; done
   rm -rf $d
 fi
 echo "--- unchanged tree again:"
